@@ -118,6 +118,10 @@ def enumerated(tier):
                  'pattern': 'brace', 'exc': exc}
   for pattern in ('brace', 'percent', 'callable', 'nested'):
     yield {'w': 'json', 'n': 1, 'dest': 'absent', 'fault': ['none'],
+           'pattern': pattern, 'meta_collide': True}
+    yield {'w': 'pickle', 'n': 1, 'dest': 'absent', 'fault': ['none'],
+           'pattern': pattern, 'meta_collide': True}
+    yield {'w': 'json', 'n': 1, 'dest': 'absent', 'fault': ['none'],
            'pattern': pattern}
     yield {'w': 'pickle', 'n': 1, 'dest': 'old', 'fault': ['none'],
            'pattern': pattern}
@@ -192,6 +196,12 @@ def run_inprocess(case):
   c = {'cases': 1, 'faults_fired': 0, 'destinations_inspected': 0,
        'successes_compared': 0}
   rec = make_record(case['n'])
+  if case.get('meta_collide'):
+    # test metadata whose keys have the names of record fields
+    import copy
+    rec = copy.copy(rec)
+    rec.metadata = dict(rec.metadata, station_id='bench-7', outcome='golden-sample',
+                        dut_id='dut-from-metadata', start_time_millis=1)
   work = tempfile.mkdtemp(dir=_S['root'])
   stage = os.path.join(work, 'stage')
   os.mkdir(stage)
